@@ -1,4 +1,5 @@
 import Driver.CAStoreRepl
+import Driver.CAStoreConc
 import KrakenModel.Model.OriginBlob
 /- Driver for C01: replays `castore` transcripts on Model.CAStoreMem and evaluates the property's
    predicate on what the implementation returned:
@@ -76,18 +77,19 @@ def step (s : St) (kind : String) (args impl : List String) : Option (St × Step
   let isProbe := args.head? = some "probe"
   let mut pf : List String := []
   let mut last := s.last
+  -- `pending`: a write with no matching content was just executed; until the next operation every probe (of
+  -- every name of the case) must show what it showed before that write
   let mut pending := if isProbe then s.pending else none
   if isProbe then
     let n := args.getD 1 ""
     if !muted then
       pf := pf ++ probeMon s.core.t n impl
-      if s.pending = some n then
+      if s.pending.isSome then
         match s.last.get? n with
         | some before =>
           if before ≠ impl then
-            pf := pf ++ [s!"side=impl key=mismatch-write-visible a write under {n} with no matching content changed what is visible: before {sp before} after {sp impl}"]
+            pf := pf ++ [s!"side=impl key=mismatch-write-visible a write under {s.pending.getD ""} with no matching content changed what is visible under {n}: before {sp before} after {sp impl}"]
         | none => pure ()
-        pending := none
     last := last.insert n impl
   else
     match pureMismatch s.core.t args with
@@ -225,4 +227,4 @@ def machine : Machine := { σ := St, name := "origin", init := init, step := ste
 
 end C01Origin
 
-def main (args : List String) : IO UInt32 := runMachines [C01.machine, C01Origin.machine] args
+def main (args : List String) : IO UInt32 := runMachines [C01.machine, C01Origin.machine, C01Conc.machine] args
